@@ -6,7 +6,8 @@ from checks.c04 import LAYOUTS, KEYS7
 from specgen import ops_spec
 
 METHODS = ["get", "put", "post", "delete", "options", "head", "patch", "trace"]
-TEMPLATES = ["/pets", "/pets/{id}", "/pets/{petId}/toys", "/pets/{petId}/toys/{toy}", "/a-b/x-{y}", "/files/{name}.json", "/", "/v1/items/{id}:{act}", "/users/{user_id}"]
+TEMPLATES = ["/pets", "/pets/{id}", "/pets/{petId}/toys", "/pets/{petId}/toys/{toy}", "/a-b/x-{y}", "/files/{name}.json", "/", "/v1/items/{id}:{act}", "/users/{user_id}",
+             "/k/{type}/x", "/k/{fn}/{user-id}", "/m/{match}.{self}"]        # captures named like Rust keywords / needing a rename (F05-7)
 
 
 def prepare(case):
